@@ -12,8 +12,26 @@ comes after this step.  No Mathlib: linked into `pvdrv`.
 namespace PV.Flatten
 open PV.IC10
 
+/-- value-level parameters of the flattening -/
+structure Cfg (V : Type) where
+  zero : V
+  negV : V → V
+  isOne : V → Bool
+  isNeg : V → Bool
+  ofNat : Nat → V
+
+/-- a procedure the program calls: name, index in emission order, parameters, does it return a value -/
+structure FInfo where
+  name : String
+  idx : Nat
+  params : List String
+  returns : Bool
+
 structure FS where
   vars : List (String × Nat) := []
+  /-- local variables of the function being flattened -/
+  locals : List (String × Nat) := []
+  funcs : List FInfo := []
   next : Nat := 100
   /-- variables with exactly one assignment in the program: a constant assigned to one of them is propagated, not stored -/
   once : List String := []
@@ -26,6 +44,13 @@ def FS.regOf (fs : FS) (x : String) : FS × Nat :=
   | none => ({ fs with vars := fs.vars ++ [(x, fs.next)], next := fs.next + 1 }, fs.next)
 
 def FS.lookup (fs : FS) (x : String) : Option Nat := (fs.vars.find? (·.1 == x)).map (·.2)
+
+def FS.localOf (fs : FS) (x : String) : FS × Nat :=
+  match fs.locals.find? (·.1 == x) with
+  | some (_, r) => (fs, r)
+  | none => ({ fs with locals := fs.locals ++ [(x, fs.next)], next := fs.next + 1 }, fs.next)
+
+def FS.lookupLocal (fs : FS) (x : String) : Option Nat := (fs.locals.find? (·.1 == x)).map (·.2)
 
 def cmpNames : List String := ["slt", "sgt", "sle", "sge", "seq", "sne"]
 
@@ -59,73 +84,89 @@ def isNum : Opnd Reg V → Bool
   | .num _ => true
   | _ => false
 
+/-- all arguments are evaluated first; then `put db (510 - i) argᵢ` for every argument -/
+def putArgs (cf : Cfg V) (i : Nat) : List (Opnd Reg V) → List (CStmt V)
+  | [] => []
+  | o :: os => PV.Core.Stmt.putm (.num (cf.ofNat (510 - i))) o :: putArgs cf (i + 1) os
+
 mutual
 /-- `(state, code, operand)`; `target`: register that receives the outermost operation -/
-partial def flatE (zero : V) (negV : V → V) (fs : FS) (target : Option Nat) : PV.Src.Expr V → Option (FS × List (CStmt V) × Opnd Reg V)
+partial def flatE (cf : Cfg V) (fs : FS) (target : Option Nat) : PV.Src.Expr V → Option (FS × List (CStmt V) × Opnd Reg V)
   | .num v => some (fs, [], .num v)
   | .gvar x => (fs.lookup x).map (fun r => (fs, [], .reg r))
+  | .lvar x => (fs.lookupLocal x).map (fun r => (fs, [], .reg r))
+  | .call f args => do
+    -- arguments into the fixed stack cells 510, 509, …; `jal`; the result comes back in cell 511
+    let fi ← fs.funcs.find? (·.name == f)
+    let (fs1, code, os) ← flatArgs cf fs args
+    let (fs2, t) := match target with | some t => (fs1, t) | none => fs1.fresh
+    pure (fs2, code ++ putArgs cf 0 os ++ [PV.Core.Stmt.call fi.idx, PV.Core.Stmt.getm t (.num (cf.ofNat 511))], .reg t)
   | .bin op a b => do
-    let (fs1, ca, oa) ← flatE zero negV fs none a
-    let (fs2, cb, ob) ← flatE zero negV fs1 none b
+    let (fs1, ca, oa) ← flatE cf fs none a
+    let (fs2, cb, ob) ← flatE cf fs1 none b
     if isNum oa && isNum ob then none else     -- a constant expression is folded by the front end: outside the core
     let (fs3, t) := match target with | some t => (fs2, t) | none => fs2.fresh
     pure (fs3, ca ++ cb ++ [PV.Core.Stmt.alu t op [oa, ob]], .reg t)
   | .un op a => do
-    let (fs1, ca, oa) ← flatE zero negV fs none a
+    let (fs1, ca, oa) ← flatE cf fs none a
     match oa with
-    | .num v => if op == "neg" then pure (fs1, ca, .num (negV v)) else none     -- a negated constant is folded by the front end; other constant operations: outside the core
+    | .num v => if op == "neg" then pure (fs1, ca, .num (cf.negV v)) else none     -- a negated constant is folded by the front end; other constant operations: outside the core
     | _ =>
     let (fs2, t) := match target with | some t => (fs1, t) | none => fs1.fresh
-    if op == "neg" then pure (fs2, ca ++ [PV.Core.Stmt.alu t "sub" [.num zero, oa]], .reg t)
+    if op == "neg" then pure (fs2, ca ++ [PV.Core.Stmt.alu t "sub" [(.num cf.zero), oa]], .reg t)
     else if op == "not" then pure (fs2, ca ++ [PV.Core.Stmt.alu t "seqz" [oa]], .reg t)
     else pure (fs2, ca ++ [PV.Core.Stmt.alu t op [oa]], .reg t)
   | .read q args => do
-    let (fs1, code, os) ← flatArgs zero negV fs args
+    let (fs1, code, os) ← flatArgs cf fs args
     let (fs2, t) := match target with | some t => (fs1, t) | none => fs1.fresh
     pure (fs2, code ++ [PV.Core.Stmt.load t q os], .reg t)
   | .ifexp c a b => do
     -- `u if c else v`: test, then both arms, then `select` (the arms of a core program have no effects, so evaluating both is
     -- what evaluating the chosen one is)
-    let (fs1, cc, oc) ← flatE zero negV fs none c
-    let (fs2, ca, oa) ← flatE zero negV fs1 none a
-    let (fs3, cb, ob) ← flatE zero negV fs2 none b
+    let (fs1, cc, oc) ← flatE cf fs none c
+    let (fs2, ca, oa) ← flatE cf fs1 none a
+    let (fs3, cb, ob) ← flatE cf fs2 none b
     if isNum oc then none else
     let (fs4, t) := match target with | some t => (fs3, t) | none => fs3.fresh
     -- the front end emits the code of the `else` arm twice (F-C01-h); for the effect-free arms of a core program that is harmless
     pure (fs4, cc ++ ca ++ cb ++ cb ++ [PV.Core.Stmt.alu t "select" [oc, oa, ob]], .reg t)
+  | .sget a => do
+    let (fs1, ca, oa) ← flatE cf fs none a
+    let (fs2, t) := match target with | some t => (fs1, t) | none => fs1.fresh
+    pure (fs2, ca ++ [PV.Core.Stmt.getm t oa], .reg t)
   | .prim op args => do
-    let (fs1, code, os) ← flatArgs zero negV fs args
+    let (fs1, code, os) ← flatArgs cf fs args
     if os.all isNum then none   -- constant call: folded by the front end
     let (fs2, t) := match target with | some t => (fs1, t) | none => fs1.fresh
     pure (fs2, code ++ [PV.Core.Stmt.alu t op os], .reg t)
   | _ => none
 
-partial def flatArgs (zero : V) (negV : V → V) (fs : FS) : List (PV.Src.Expr V) → Option (FS × List (CStmt V) × List (Opnd Reg V))
+partial def flatArgs (cf : Cfg V) (fs : FS) : List (PV.Src.Expr V) → Option (FS × List (CStmt V) × List (Opnd Reg V))
   | [] => some (fs, [], [])
   | e :: es => do
-    let (fs1, c1, o1) ← flatE zero negV fs none e
-    let (fs2, c2, os) ← flatArgs zero negV fs1 es
+    let (fs1, c1, o1) ← flatE cf fs none e
+    let (fs2, c2, os) ← flatArgs cf fs1 es
     pure (fs2, c1 ++ c2, o1 :: os)
 end
 
 /-- a test that is a comparison (possibly under one `not`), or — for `if` only (`truth`) — a variable, a device read or an
     `and` / `or`, tested for being non-zero: (operand code, condition, branch suffix, operands) -/
-def flatTest (zero : V) (negV : V → V) (truth : Bool) (fs : FS) : PV.Src.Expr V → Option (FS × List (CStmt V) × String × String × List (Opnd Reg V))
+def flatTest (cf : Cfg V) (truth : Bool) (fs : FS) : PV.Src.Expr V → Option (FS × List (CStmt V) × String × String × List (Opnd Reg V))
   | .bin op a b =>
     if cmpNames.contains op then do
-      let (fs1, ca, oa) ← flatE zero negV fs none a
-      let (fs2, cb, ob) ← flatE zero negV fs1 none b
+      let (fs1, ca, oa) ← flatE cf fs none a
+      let (fs2, cb, ob) ← flatE cf fs1 none b
       let (c, neg) ← branchPair op
       if isNum oa && isNum ob then none else
       pure (fs2, ca ++ cb, c, neg, [oa, ob])
     else if truth && (op == "and" || op == "or") then do
-      let (fs1, code, o) ← flatE zero negV fs none (.bin op a b)
+      let (fs1, code, o) ← flatE cf fs none (.bin op a b)
       pure (fs1, code, "nez", "eqz", [o])           -- `if p and q:` is `beqz t ELSE`
     else none
   | .un "not" (.bin op a b) =>
     if cmpNames.contains op then do
-      let (fs1, ca, oa) ← flatE zero negV fs none a
-      let (fs2, cb, ob) ← flatE zero negV fs1 none b
+      let (fs1, ca, oa) ← flatE cf fs none a
+      let (fs2, cb, ob) ← flatE cf fs1 none b
       let (c, neg) ← branchPair op
       if isNum oa && isNum ob then none else
       -- the source condition is the negated comparison; the emitted branch uses the plain suffix.  Under `not` the front
@@ -133,16 +174,16 @@ def flatTest (zero : V) (negV : V → V) (truth : Bool) (fs : FS) : PV.Src.Expr 
       let (fs3, t) := fs2.fresh
       pure (fs3, ca ++ cb ++ [PV.Core.Stmt.alu t op [oa, ob]], neg, c, [oa, ob])
     else if truth && (op == "and" || op == "or") then do
-      let (fs1, code, o) ← flatE zero negV fs none (.bin op a b)
+      let (fs1, code, o) ← flatE cf fs none (.bin op a b)
       pure (fs1, code, "eqz", "nez", [o])           -- `if not (p and q):` is `bnez t ELSE`
     else none
   | .un "not" (.gvar x) => if truth then (fs.lookup x).map (fun r => (fs, [], "eqz", "nez", [Opnd.reg r])) else none
   | .un "not" (.read q args) => if truth then do
-      let (fs1, code, o) ← flatE zero negV fs none (.read q args)
+      let (fs1, code, o) ← flatE cf fs none (.read q args)
       pure (fs1, code, "eqz", "nez", [o]) else none
   | .gvar x => if truth then (fs.lookup x).map (fun r => (fs, [], "nez", "eqz", [Opnd.reg r])) else none   -- `if x:` is `beqz x ELSE`
   | .read q args => if truth then do
-      let (fs1, code, o) ← flatE zero negV fs none (.read q args)
+      let (fs1, code, o) ← flatE cf fs none (.read q args)
       pure (fs1, code, "nez", "eqz", [o]) else none
   | _ => none
 
@@ -151,66 +192,92 @@ def isOperand : PV.Src.Expr V → Bool
   | _ => false
 
 mutual
-partial def flatS (zero one : V) (negV : V → V) (isOne isNeg : V → Bool) (fs : FS) : PV.Src.Stmt V → Option (FS × List (CStmt V))
+partial def flatS (cf : Cfg V) (fs : FS) : PV.Src.Stmt V → Option (FS × List (CStmt V))
   | .gassign x e =>
     match e with
     | .gvar _ => none                            -- `x = y` is aliased by the front end: outside the core
     | _ => do
       let (fs0, rx) := fs.regOf x
-      let (fs1, code, o) ← flatE zero negV fs0 (some rx) e
+      let (fs1, code, o) ← flatE cf fs0 (some rx) e
       match o with
       | .num v =>
         -- a constant: `move x c` for a variable that is assigned several times; assigned once: propagated (outside the core)
         if fs.once.contains x then none else pure (fs1, code ++ [PV.Core.Stmt.alu rx "move" [.num v]])
       | _ => pure (fs1, code)
+  | .lassign x e =>
+    match e with
+    | .lvar _ => none
+    | .gvar _ => none
+    | _ => do
+      let (fs0, rx) := fs.localOf x
+      let (fs1, code, o) ← flatE cf fs0 (some rx) e
+      match o with
+      | .num v => pure (fs1, code ++ [PV.Core.Stmt.alu rx "move" [.num v]])
+      | _ => pure (fs1, code)
+  | .expr (.call f args) => do
+    let fi ← fs.funcs.find? (·.name == f)
+    let (fs1, code, os) ← flatArgs cf fs args
+    -- the result of a function that returns one is fetched even when the statement drops it
+    if fi.returns then
+      let (fs2, t) := fs1.fresh
+      pure (fs2, code ++ putArgs cf 0 os ++ [PV.Core.Stmt.call fi.idx, PV.Core.Stmt.getm t (.num (cf.ofNat 511))])
+    else pure (fs1, code ++ putArgs cf 0 os ++ [PV.Core.Stmt.call fi.idx])
+  | .ret none => some (fs, [PV.Core.Stmt.ret])
+  | .ret (some e) => do
+    let (fs1, code, o) ← flatE cf fs none e
+    pure (fs1, code ++ [PV.Core.Stmt.putm (.num (cf.ofNat 511)) o, PV.Core.Stmt.ret])
   | .write q args => do
-    let (fs1, code, os) ← flatArgs zero negV fs args
+    let (fs1, code, os) ← flatArgs cf fs args
     pure (fs1, code ++ [PV.Core.Stmt.store q os])
   | .ite c t e => do
-    let (fs1, pre, cnd, neg, os) ← flatTest zero negV true fs c
-    let (fs2, ct) ← flatB zero one negV isOne isNeg fs1 t
+    let (fs1, pre, cnd, neg, os) ← flatTest cf true fs c
+    let (fs2, ct) ← flatB cf fs1 t
     if e.isEmpty then pure (fs2, pre ++ [PV.Core.Stmt.ifThen cnd neg os (seqAll ct)])
     else do
-      let (fs3, ce) ← flatB zero one negV isOne isNeg fs2 e
+      let (fs3, ce) ← flatB cf fs2 e
       pure (fs3, pre ++ [PV.Core.Stmt.ite cnd neg os (seqAll ct) (seqAll ce)])
   | .while c body =>
     match c with
     | .num v =>
-      if isOne v then do
-        let (fs1, cb) ← flatB zero one negV isOne isNeg fs body
+      if cf.isOne v then do
+        let (fs1, cb) ← flatB cf fs body
         pure (fs1, [PV.Core.Stmt.loop (seqAll cb)])
       else none
     | _ => do
-      let (fs1, pre, cnd, neg, os) ← flatTest zero negV false fs c
+      let (fs1, pre, cnd, neg, os) ← flatTest cf false fs c
       if !pre.isEmpty then none else do         -- operands of a loop test must be plain operands (re-evaluated each iteration)
-        let (fs2, cb) ← flatB zero one negV isOne isNeg fs1 body
+        let (fs2, cb) ← flatB cf fs1 body
         pure (fs2, [PV.Core.Stmt.while cnd neg os (seqAll cb)])
   | .forRange _ x start stop step body => do
     -- `range` arguments are evaluated once, before the loop; the loop variable lives in the iterator's register; the exit
     -- test is `bge` (`ble` for a negative constant step) at the loop label and the increment is the last thing in the body
-    let (fs1, c1, o1) ← flatE zero negV fs none start
-    let (fs2, c2, o2) ← flatE zero negV fs1 none stop
-    let (fs3, c3, o3) ← flatE zero negV fs2 none step
+    let (fs1, c1, o1) ← flatE cf fs none start
+    let (fs2, c2, o2) ← flatE cf fs1 none stop
+    let (fs3, c3, o3) ← flatE cf fs2 none step
     let (fs4, rx) := fs3.regOf x
-    let down := match o3 with | .num v => isNeg v | _ => false
+    let down := match o3 with | .num v => cf.isNeg v | _ => false
     let (c, neg) := if down then ("gt", "le") else ("lt", "ge")
-    let (fs5, cb) ← flatB zero one negV isOne isNeg fs4 body
+    let (fs5, cb) ← flatB cf fs4 body
     pure (fs5, c1 ++ c2 ++ c3 ++ [PV.Core.Stmt.alu rx "move" [o1],
       PV.Core.Stmt.while c neg [.reg rx, o2] (seqAll (cb ++ [PV.Core.Stmt.alu rx "add" [.reg rx, o3]]))])
   | .brk => some (fs, [PV.Core.Stmt.brk])       -- the generator only places these inside `while` loops
   | .cont => some (fs, [PV.Core.Stmt.cont])
   | .yield => some (fs, [PV.Core.Stmt.yield])
+  | .sput a v => do
+    let (fs1, ca, oa) ← flatE cf fs none a
+    let (fs2, cv, ov) ← flatE cf fs1 none v
+    pure (fs2, ca ++ cv ++ [PV.Core.Stmt.putm oa ov])
   | .sleep e => do
-    let (fs1, code, o) ← flatE zero negV fs none e
+    let (fs1, code, o) ← flatE cf fs none e
     pure (fs1, code ++ [PV.Core.Stmt.sleep o])
   | .pass => some (fs, [])
   | _ => none
 
-partial def flatB (zero one : V) (negV : V → V) (isOne isNeg : V → Bool) (fs : FS) : List (PV.Src.Stmt V) → Option (FS × List (CStmt V))
+partial def flatB (cf : Cfg V) (fs : FS) : List (PV.Src.Stmt V) → Option (FS × List (CStmt V))
   | [] => some (fs, [])
   | s :: rest => do
-    let (fs1, c1) ← flatS zero one negV isOne isNeg fs s
-    let (fs2, c2) ← flatB zero one negV isOne isNeg fs1 rest
+    let (fs1, c1) ← flatS cf fs s
+    let (fs2, c2) ← flatB cf fs1 rest
     pure (fs2, c1 ++ c2)
 end
 
@@ -228,12 +295,80 @@ partial def assignedB : List (PV.Src.Stmt V) → List String
   | s :: r => assignedS s ++ assignedB r
 end
 
-/-- the whole (function-free) program -/
-def flatten (zero one : V) (negV : V → V) (isOne isNeg : V → Bool) (p : PV.Src.Program V) : Option (CStmt V) :=
-  if !p.funcs.isEmpty then none else
-  let asg := assignedB p.main
+mutual
+partial def callsE : PV.Src.Expr V → List String
+  | .call f args => f :: callsEs args
+  | .bin _ a b => callsE a ++ callsE b
+  | .un _ a => callsE a
+  | .ifexp c a b => callsE c ++ callsE a ++ callsE b
+  | .read _ args => callsEs args
+  | .prim _ args => callsEs args
+  | .sget a => callsE a
+  | .index vals i => callsEs vals ++ callsE i
+  | _ => []
+partial def callsEs : List (PV.Src.Expr V) → List String
+  | [] => []
+  | e :: es => callsE e ++ callsEs es
+end
+
+mutual
+partial def callsS : PV.Src.Stmt V → List String
+  | .gassign _ e | .lassign _ e | .expr e | .sleep e | .push e => callsE e
+  | .write _ args => callsEs args
+  | .sput a v => callsE a ++ callsE v
+  | .ite c t e => callsE c ++ callsB t ++ callsB e
+  | .while c b => callsE c ++ callsB b
+  | .forRange _ _ a b c body => callsE a ++ callsE b ++ callsE c ++ callsB body
+  | .forList _ _ vals body => callsEs vals ++ callsB body
+  | .ret (some e) => callsE e
+  | _ => []
+partial def callsB : List (PV.Src.Stmt V) → List String
+  | [] => []
+  | s :: r => callsS s ++ callsB r
+end
+
+mutual
+partial def returnsS : PV.Src.Stmt V → Bool
+  | .ret (some _) => true
+  | .ite _ t e => returnsB t || returnsB e
+  | .while _ b => returnsB b
+  | .forRange _ _ _ _ _ b => returnsB b
+  | .forList _ _ _ b => returnsB b
+  | _ => false
+partial def returnsB : List (PV.Src.Stmt V) → Bool
+  | [] => false
+  | s :: r => returnsS s || returnsB r
+end
+
+/-- one procedure: parameters are fetched from their stack cells, then the body; a `return` that is the last statement of the
+    body needs no jump to the end label -/
+def flatFunc (cf : Cfg V) (fs : FS) (f : PV.Src.Func V) : Option (FS × CStmt V) := do
+  let fs0 := { fs with locals := [] }
+  let (fs1, pro) := f.params.zipIdx.foldl (fun (acc : FS × List (CStmt V)) (p : String × Nat) =>
+    let (fsx, r) := acc.1.localOf p.1
+    (fsx, acc.2 ++ [PV.Core.Stmt.getm r (.num (cf.ofNat (510 - p.2)))])) (fs0, [])
+  let (fs2, code) ← flatB cf fs1 f.body
+  -- drop the trailing `ret` of a final return
+  let code' := match code.getLast? with
+    | some PV.Core.Stmt.ret => code.dropLast
+    | _ => code
+  pure (fs2, seqAll (pro ++ code'))
+
+/-- the whole program: (main, procedures in emission order).  Procedures: the called functions, sorted by name, each a leaf. -/
+def flatten (cf : Cfg V) (p : PV.Src.Program V) : Option (CStmt V × List (CStmt V)) := do
+  let called := (callsB p.main ++ (p.funcs.map (fun f => callsB f.body)).flatten).eraseDups
+  let fsorted := (p.funcs.filter (fun f => called.contains f.name)).toArray.qsort (fun a b => a.name < b.name) |>.toList
+  -- every called function must exist and call nothing itself (leaf)
+  if !(called.all (fun n => p.funcs.any (·.name == n))) then none else
+  if fsorted.any (fun f => !(callsB f.body).isEmpty) then none else
+  let infos := fsorted.zipIdx.map (fun (f, i) => ({ name := f.name, idx := i, params := f.params, returns := returnsB f.body } : FInfo))
+  let asg := assignedB p.main ++ (p.funcs.map (fun f => assignedB f.body)).flatten
   let once := asg.filter (fun x => asg.count x == 1)
-  (flatB zero one negV isOne isNeg { once := once } p.main).map (fun r => seqAll r.2)
+  let (fs1, mainCode) ← flatB cf { once := once, funcs := infos } p.main
+  let (_, procs) ← fsorted.foldlM (fun (acc : FS × List (CStmt V)) f => do
+    let (fsx, b) ← flatFunc cf acc.1 f
+    pure (fsx, acc.2 ++ [b])) (fs1, [])
+  pure (seqAll mainCode, procs)
 
 /-! ### canonical form for comparison: registers renamed by first occurrence -/
 
